@@ -36,6 +36,10 @@ func keyBytes(s string) []byte {
 	if s == "~nil" {
 		return nil
 	}
+	// keys of more than a kilobyte that differ only in their last byte
+	if s == "~L1" || s == "~L2" {
+		return append(bytes.Repeat([]byte("k"), 1100), s[2])
+	}
 	b := []byte(s)
 	for i := range b {
 		if b[i] == '~' {
@@ -51,7 +55,7 @@ func keyBytes(s string) []byte {
 	return b
 }
 
-var fieldAlpha = []string{"", "a", "b", "ab", "a:", ":b", "a~b", "~", "aa", "b:a", "~nil", "~nil", "ba", "a~"}
+var fieldAlpha = []string{"", "a", "b", "ab", "a:", ":b", "a~b", "~", "aa", "b:a", "~nil", "~nil", "ba", "a~", "~L1", "~L2"}
 
 // Query is a query description (also used as standing query).
 type Query struct {
